@@ -25,7 +25,7 @@ def sh(c, **kw):
     return subprocess.run(c, shell=True, capture_output=True, text=True, **kw)
 slots = queue.Queue()
 for k in range(a.j):
-    root = "/var/tmp/seedall-%d" % k
+    root = "/var/tmp/seedall-%d-%d" % (os.getpid(), k)
     sh("git -C %s worktree remove --force %s/verif; git -C %s worktree remove --force %s/repo; rm -rf %s" % (V, root, REPO, root, root))
     os.makedirs(root)
     r = sh("git -C %s worktree add --detach %s/verif HEAD && git -C %s worktree add --detach %s/repo HEAD" % (V, root, REPO, root))
@@ -61,7 +61,7 @@ ts = [threading.Thread(target=run, args=(t,)) for t in ths]
 for t in ts: t.start()
 for t in ts: t.join()
 for k in range(a.j):
-    root = "/var/tmp/seedall-%d" % k
+    root = "/var/tmp/seedall-%d-%d" % (os.getpid(), k)
     sh("git -C %s worktree remove --force %s/verif; git -C %s worktree remove --force %s/repo; rm -rf %s" % (V, root, REPO, root, root))
 sh("%s %s/tools/seed_report.py" % (sys.executable, V))
 print("done:", len(out), "seeds")
